@@ -14,6 +14,7 @@ mod eproj;
 mod model;
 mod sched;
 mod smodel;
+mod strace10;
 mod util;
 
 use std::time::Duration;
@@ -108,6 +109,7 @@ fn dispatch_replay(prop: &str, v: &serde_json::Value) -> bool {
         "H-sweep" => hist::replay_sweep(v),
         "H-cli" => hist::replay_cli(v),
         "E-clean" => eclean::replay(v),
+        "strace10" => strace10::replay(v),
         "K" => crash::replay(v),
         "E-proj" => eproj::replay(v),
         e => {
